@@ -840,7 +840,9 @@ def main_real_case(ctx, W, d, ref_name, mol_names, auto_names, exclude, out_mode
             os.remove(stale)
     before = snapshot([absd, outdir])
     argv = build_argv(init, mol, auto, exclude, outfile, scale)
-    status, paths, stdout = impl_main_real(argv, seed, steps, cwd=cwd)
+    scratch_cwd = os.path.join(root(), "cwd")       # absolute forms run from a scratch directory
+    os.makedirs(scratch_cwd, exist_ok=True)
+    status, paths, stdout = impl_main_real(argv, seed, steps, cwd=cwd or scratch_cwd)
     after = snapshot([absd, outdir])
     new = sorted(p for p in after if p not in before or before[p] != after[p])
     bad = []
@@ -886,7 +888,7 @@ def main_real_case(ctx, W, d, ref_name, mol_names, auto_names, exclude, out_mode
                     os.remove(lib_out)
                 triples = explicit + list(perm)
                 library_workflow(init, triples, sc, os.path.join(pre + "outdir", "library.gro") if cwd else lib_out,
-                                 seed, steps, cwd=cwd)
+                                 seed, steps, cwd=cwd or scratch_cwd)
                 tried.append(triples)
                 if filecmp.cmp(want, lib_out, shallow=False):
                     same = True
@@ -1064,6 +1066,8 @@ def correspondence(ctx):
     nreal = ctx.n(15, 60)
     forms = ["abs", "dslash", "rel", "dotrel", "subrel"]
     outs = ["default", "abs", "rel"]
+    combos = [(f, o) for o in outs for f in forms]
+    combos = combos[0::2] + combos[1::2]          # interleave so that any prefix mixes the modes
     for k in range(nreal):
         desc = make_descriptor(rs, "full" if k % 3 else "samesig", for_mapping=True)
         d = materialize(desc, os.path.join(root(), "m%d" % k))
@@ -1095,8 +1099,9 @@ def correspondence(ctx):
             if sp["same_sig"] and sp["name"] in triples and auto is not None and list(triples[sp["name"]]) not in mol:
                 mol.append(list(triples[sp["name"]]))
         scale = [None, 0.5, 0.8, 1.0][int(rs.randint(0, 4))]
-        main_real_case(ctx, W, d, desc["ref"], mol, auto, excl, outs[int(rs.randint(0, 3))], scale,
-                       forms[int(rs.randint(0, len(forms)))], int(rs.randint(0, 10 ** 6)), 5,
+        form, out_mode = combos[k % len(combos)]      # every (input path form, output mode) pair at least once
+        main_real_case(ctx, W, d, desc["ref"], mol, auto, excl, out_mode, scale,
+                       form, int(rs.randint(0, 10 ** 6)), 5,
                        {"kind": "main_real", "desc": desc}, triples)
     hist["main_real"] = nreal
     shipped_discovery(ctx)
@@ -1143,6 +1148,7 @@ def oracle(ctx, scale):
 def replay(ctx, obj):
     r = obj["replay"]
     kind = r.get("kind")
+    ctx.violation = lambda *a, **k: None        # a replay reports on stdout, it does not write new replay files
     W = Work()
     rs = ctx.np_rng("replay")
     if kind == "classify":
